@@ -441,6 +441,155 @@ def _kernels(chk, only=None):
 # ----------------------------------------------------------------------------
 #  dense output
 # ----------------------------------------------------------------------------
+_REPLAY_ERRNORM = """
+import warnings, logging
+warnings.filterwarnings("ignore"); logging.disable(logging.CRITICAL)
+import numpy as np
+from scipy.integrate import solve_ivp
+from hiten.algorithms.integrators.rk import AdaptiveRK
+from hiten.algorithms.dynamics.rhs import create_rhs_system
+# the SAME trajectory on three clocks: y' = lam * pendulum(y) on [0, 20/lam]; a step-size control built on an embedded
+# error estimate is invariant under this rescaling (h -> h/lam), so the error at the 41 output times must not change
+tol, rows = 1e-9, []
+for order in (5, 8):
+    for lam in (1.0, 1e2, 1e4):
+        def f(t, y, lam=lam): return lam * np.array([y[1], -np.sin(y[0])])
+        T = np.linspace(0.0, 20.0 / lam, 41); y0 = np.array([1.0, 0.0])
+        ref = solve_ivp(f, (0.0, 20.0 / lam), y0, method="DOP853", rtol=1e-13, atol=1e-14, t_eval=T).y.T
+        sol = AdaptiveRK(order=order, rtol=tol, atol=tol).integrate(create_rhs_system(f, dim=2, name="p"), y0, T)
+        rows.append((order, lam, float(np.abs(sol.states - ref).max() / tol)))
+        print("order", order, "lambda", lam, "max error / tol =", rows[-1][2])
+bad = [r for r in rows if r[2] > 200.0]
+print("CONFIRMED" if bad else "NOT-CONFIRMED", bad)
+"""
+
+
+class _Captured(Exception):
+    pass
+
+
+def _error_norms(chk):
+    """'error bounded by a modest multiple of the requested tolerances': every adaptive driver accepts / rejects a step on
+    the tolerance-scaled norm of the kernel's EMBEDDED error estimate (the difference of two Runge-Kutta solutions,
+    delta = h sum e_j k_j) - nothing else enters (in particular no second factor h, which would make the accepted local
+    error depend on the unit of time)."""
+    import hiten.algorithms.integrators.rk as rk
+    n = 2
+    h = sp.Symbol("h", positive=True)
+    a5 = sp.symbols("a5_0:%d" % n, positive=True)
+    a3 = sp.symbols("a3_0:%d" % n, positive=True)
+    ev = sp.symbols("ev_0:%d" % n, positive=True)
+    sc = sp.symbols("s_0:%d" % n, positive=True)
+    y0s = sp.symbols("y_0:%d" % n, positive=True)
+
+    def one(kind, ham, event, accept):
+        cls = rk._RK45 if kind == "rk45" else rk._DOP853
+        name = "_integrate_%s%s%s" % (kind, "_until_event" if event else "", "_ham" if ham else "")
+        fn = getattr(cls, name, None)
+        if fn is None:
+            raise symx.Undecided(f"contract not anchored: {cls.__name__}.{name} not found")
+        got = {}
+        saved = {}
+
+        def patch(nm, v):
+            saved[nm] = getattr(rk, nm)
+            setattr(rk, nm, v)
+
+        def kernel(*a):
+            hh = a[2] if ham else a[3]
+            got["h_kernel"] = hh
+            yh = xarr([sp.Symbol("yh_%d" % i, positive=True) for i in range(n)])
+            yl = xarr([sp.Symbol("yl_%d" % i, positive=True) for i in range(n)])
+            # the kernels' own postconditions (proved above): err_vec / err5 / err3 = h * (weights . stages)
+            if kind == "rk45":
+                return yh, yl, xarr([val(hh) * e for e in ev]), "K"
+            return yh, yl, xarr([val(hh) * e for e in ev]), xarr([val(hh) * e for e in a5]), xarr([val(hh) * e for e in a3]), "K"
+
+        def acc(e, ep, o):
+            got["err_norm"] = val(e)
+            raise _Captured()
+
+        def rej(e, o):
+            got["err_norm"] = val(e)
+            raise _Captured()
+
+        def decide(op, d):
+            got.setdefault("asked", []).append((op, d))
+            return accept if op in ("le", "lt") else (not accept)
+        frhs = lambda *a: xarr([sp.Symbol("f_%d" % i, positive=True) for i in range(n)])
+        with exact(decide=decide) as alg:
+            red = Reducer(alg)
+            try:
+                patch(("rk45_step%s_jit_kernel" if kind == "rk45" else "dop853_step%s_jit_kernel") % ("_ham" if ham else ""), kernel)
+                patch("_error_scale", lambda y, yh, r, a_: xarr(list(sc)))
+                patch("_select_initial_step", lambda d0, d1, mn, mx: X(h))
+                patch("_clamp_step", lambda hh, mx, mn: hh)
+                patch("_adjust_step_to_endpoint", lambda t, hh, te: hh)
+                patch("_pi_accept_factor", acc)
+                patch("_pi_reject_factor", rej)
+                if ham:
+                    patch("_hamiltonian_rhs", lambda yy, j, c, nd: frhs())
+                head = () if ham else (frhs,)
+                tail = ("J", "CL", 3) if ham else ()
+                rt, at, mx, mn = sp.symbols("rtol atol hmax hmin", positive=True)
+                y0 = xarr(list(y0s))
+                try:
+                    if event:
+                        g = lambda t, y: X(sp.Symbol("g", positive=True))
+                        patch("_event_crossed", lambda gp, gn, d: False)
+                        mid = ("A", "B", "C", "E", "P") if kind == "rk45" else ("A", "B", "C", "E5", "E3", "D", 16, 7, "AF", "CF")
+                        fn(*head, y0, X(sp.Integer(0)), X(h), *mid, X(rt), X(at), X(mx), X(mn), 5 if kind == "rk45" else 8,
+                           g, 0, 1, X(sp.Rational(1, 10 ** 9)), X(sp.Rational(1, 10 ** 9)), *tail)
+                    else:
+                        te = xarr([sp.Integer(0), h])
+                        mid = ("A", "B", "C", "E", "P") if kind == "rk45" else ("A", "B", "C", "E5", "E3", "D", 16, 7, "AF", "CF")
+                        fn(*head, y0, te, *mid, X(rt), X(at), X(mx), X(mn), 5 if kind == "rk45" else 8, *tail)
+                except _Captured:
+                    pass
+            finally:
+                for nm, v in saved.items():
+                    setattr(rk, nm, v)
+            if "err_norm" not in got:
+                raise symx.Undecided(f"contract not anchored: {name} never handed an error norm to the step-size controller "
+                                     f"on the {'accepting' if accept else 'rejecting'} path")
+            en = got["err_norm"]
+            hk = val(got["h_kernel"])
+            if kind == "rk45":
+                q = sum((hk * e / s_) ** 2 for e, s_ in zip(ev, sc))
+                # err_norm = || delta / scale ||_2 / sqrt(n)
+                require_identity(red, en ** 2 * n, q, key_prefix=f"{name}: err_norm^2 * n == sum((err_vec/scale)^2)")
+            else:
+                q5 = sum((hk * e / s_) ** 2 for e, s_ in zip(a5, sc))
+                q3 = sum((hk * e / s_) ** 2 for e, s_ in zip(a3, sc))
+                # Hairer's combined estimate: err = ||d5||^2 / sqrt(||d5||^2 + 0.01 ||d3||^2) / sqrt(n), d = delta/scale
+                require_identity(red, en ** 2 * n * (q5 + q3 / 100), q5 ** 2,
+                                 key_prefix=f"{name}: err_norm^2 * n * (|d5|^2 + 0.01 |d3|^2) == |d5|^4  (d = embedded difference / scale)")
+            if sp.sympify(en).subs({x: 1 for x in sp.sympify(en).free_symbols}).evalf() < 0:
+                raise Refuted(f"{name}: negative error norm", str(en))
+
+    def th(kind, ham, event):
+        def run_():
+            try:
+                for accept in (True, False):
+                    one(kind, ham, event, accept)
+            except Refuted as r:
+                if getattr(r, "replay", None) is None:
+                    r.replay = _REPLAY_ERRNORM
+                raise
+        return run_
+    for kind in ("rk45", "dop853"):
+        for event in (False, True):
+            for ham in (False, True):
+                cls = "_RK45" if kind == "rk45" else "_DOP853"
+                name = "_integrate_%s%s%s" % (kind, "_until_event" if event else "", "_ham" if ham else "")
+                spec = "||err_vec/scale||_2/sqrt(n)" if kind == "rk45" else \
+                    "||d5||^2/sqrt((||d5||^2+0.01||d3||^2) n), d = (embedded difference h*E.k)/scale"
+                chk.obl(f"{cls}.{name}: the step is accepted / rejected on err_norm == {spec} - the tolerance-scaled norm of the "
+                        f"kernel's embedded estimate and nothing else (both controller call sites)",
+                        "K1 identity (driver call site, symbolic h / estimates / scale)",
+                        [RK + f":{cls}.{name}"], "B3 sympy normal form", th(kind, ham, event))
+
+
 def _poly_coeffs(expr, x):
     return sp.Poly(sp.expand(expr), x).all_coeffs()[::-1]
 
@@ -671,6 +820,7 @@ def run(chk):
     _kernels(chk)
     _dense(chk)
     _controller(chk)
+    _error_norms(chk)
     # "requested tolerance": every adaptive driver must build its acceptance scale from the requested (rtol, atol);
     # the loop harnesses are those of C10 / C11 (same real drivers, same cut), only this call-site obligation is registered
     from contracts import C10, C11
